@@ -92,3 +92,21 @@ package val
 //@   nopanic
 //@   pure
 //@   ensures #value result == ite(v.V != nil, v.V, defVal)
+
+//@ func Equals
+//@   props C18
+//@   trusted
+//@   nopanic
+//@   pure
+//@   ensures result == valEq(x, y)
+
+//@ func Time
+//@   props C01 C04
+//@   uses types.init
+//@   nopanic
+//@   fresh
+//@   ensures isTime(result) && result.Time().V == t
+
+//@ func (*Val).String
+//@   props C18
+//@   abstract
